@@ -21,7 +21,7 @@ RULE = (
     "Safety is an ordering monitor over every execution; liveness is 'every waiter whose producers ran runs exactly once' in DAGs and the exact "
     "sequential iteration count in loops. Non-trivial = a waiter actually waited (its producer completed in an earlier step than the waiter "
     "started) or a loop ran >=2 iterations; distinct = digest of (program shape, inputs, completion order)."
-    ' Also: waiters with another, later-changing input (defaulted upstream parameter; one-shot signal inside a loop), waiters with two awaited names produced at different rates.'
+    ' Also: waiters with another, later-changing input (defaulted upstream parameter; one-shot signal inside a loop), waiters with two awaited names produced at different rates; signal producers (functions, gates) that are cacheable and served from an InMemoryCache in a second run.'
 )
 ASSUMPTIONS = [
     "awaited names are never supplied by the caller (a supplied value legitimately satisfies the wait)",
@@ -128,7 +128,13 @@ def gen_case(rng: random.Random, tier: str) -> dict:
         return {"kind": "loop", "blk": blk, "order": order, "async": [gen.gen_async_cfg(rng) for _ in range(2)]}
     g = gen_dag17(rng)
     inp = gen.gen_inputs(rng, g, p_bind=0.0, p_omit=0.3)
-    return {"kind": "dag", "graph": g, "inputs": inp, "async": [gen.gen_async_cfg(rng) for _ in range(2)]}
+    cached = rng.random() < 0.3
+    if cached:
+        # producers of signals are served from a cache in a second run: a signal is produced on every run of its producer all the same
+        for nd in g["nodes"]:
+            if nd["kind"] in ("fn", "route") and nd.get("emit") and rng.random() < 0.8:
+                nd["cache"] = True
+    return {"kind": "dag", "graph": g, "inputs": inp, "async": [gen.gen_async_cfg(rng) for _ in range(2)], "cached": cached}
 
 
 # ------------------------------------------------------------------ monitor
@@ -277,6 +283,8 @@ def run_case(doc: dict) -> dict:
             if leaked:
                 viol.append((f"{tag}:signal_leaked_into_result", {"keys": leaked}))
             sigs.append(completion_sig(w["rt"]))
+        if doc.get("cached") and not viol:
+            _cached_second_run(doc, g, values, exp, plans, res, rts, viol)
     except BuildError:
         res["discard"] = "build_error"
         return res
@@ -289,6 +297,44 @@ def run_case(doc: dict) -> dict:
     return res
 
 
+def _cached_second_run(doc, g, values, exp, plans, res, rts, viol) -> None:
+    """Two runs on one InMemoryCache: in the second, cacheable producers are cache hits; their signals are produced all the same."""
+    from hypergraph import InMemoryCache
+
+    cacheable = {nd["name"] for nd in g["nodes"] if nd.get("cache")}
+    if not cacheable:
+        return
+    for i, (mode, cfg) in enumerate(plans[:2]):
+        cache = InMemoryCache()
+        outs = []
+        for run in (1, 2):
+            w = run_world(g, values, mode=mode, cfg=cfg, cache=cache)
+            rts.append(w["rt"])
+            res["runs"] += 1
+            outs.append(w)
+        w1, w2 = outs
+        tag = f"{mode}{i}:second_run_on_cache"
+        if w1["out"]["status"] != "completed" or w2["out"]["status"] != "completed":
+            viol.append((f"{tag}:not_completed", {"first": w1["out"]["status"], "second": w2["out"]["status"], "error": w2["out"]["error"] or w1["out"]["error"]}))
+            continue
+        counts: dict[str, int] = {}
+        for h in enters(w2["rt"]):
+            counts[h["n"]] = counts.get(h["n"], 0) + 1
+        hits = sum(1 for n in cacheable if exp[n] and counts.get(n, 0) == 0)
+        res["stats"]["probe_signal_producer_served_from_cache"] = res["stats"].get("probe_signal_producer_served_from_cache", 0) + hits
+        for nd in g["nodes"]:
+            if nd["name"] in cacheable:
+                continue
+            c = counts.get(nd["name"], 0)
+            if exp[nd["name"]] and c != 1:
+                cls = "waiting_node_never_ran" if (c == 0 and nd.get("wait_for")) else ("node_never_ran" if c == 0 else "node_ran_more_than_once")
+                viol.append((f"{tag}:{cls}", {"node": nd["name"], "times": c, "wait_for": nd.get("wait_for"), "cacheable": sorted(cacheable)}))
+            if not exp[nd["name"]] and c:
+                viol.append((f"{tag}:node_ran_although_a_dependency_never_ran", {"node": nd["name"], "times": c}))
+        if canon(w1["out"]["values"]) != canon(w2["out"]["values"]):
+            viol.append((f"{tag}:values_differ_from_first_run", {"first": w1["out"]["values"], "second": w2["out"]["values"]}))
+
+
 def _run_loop(doc: dict) -> dict:
     from checks.c04 import _judge, _p
 
@@ -299,6 +345,8 @@ def _run_loop(doc: dict) -> dict:
     rts = []
     sigs = []
     vals = {blk["seed"]: 0}
+    if blk.get("gate_late"):
+        vals[f"{blk['prefix']}budget"] = 5
     kw = {"entrypoint": f"{blk['prefix']}b0"}
     d4 = {"nested": False}
     try:
